@@ -12,27 +12,17 @@ theorem inv_stepU (s s' : UState) (hi : IdxInv s.idx) (op : UOp) (hf : UOp.fresh
     IdxInv s'.idx := by
   cases op with
   | convertCoin d u r n =>
-    simp only [stepU] at h
-    split at h; · cases h
-    rename_i p' hme
-    obtain ⟨id', _, hp'⟩ := pairByDenom_some (mintingEnabled_ok hme)
-    split at h
-    · cases h; exact inv_removePair _ hi _ _ hp'
-    · simp only [UState.withLedger] at h
-      split at h
-      · cases h; exact hi
-      · cases h
+    obtain ⟨p', hpd, _, hcase⟩ := stepU_convertCoin_ok s s' d u r n h
+    obtain ⟨id', _, hp'⟩ := pairByDenom_some hpd
+    rcases hcase with ⟨_, rfl⟩ | ⟨_, L', _, rfl⟩
+    · exact inv_removePair _ hi _ _ hp'
+    · exact hi
   | convertERC20 ct u r n =>
-    simp only [stepU] at h
-    split at h; · cases h
-    rename_i p' hme
-    obtain ⟨id', _, hp'⟩ := pairByErc_some (mintingEnabled_ok hme)
-    split at h
-    · cases h; exact inv_removePair _ hi _ _ hp'
-    · simp only [UState.withLedger] at h
-      split at h
-      · cases h; exact hi
-      · cases h
+    obtain ⟨p', hpe, _, hcase⟩ := stepU_convertERC20_ok s s' ct u r n h
+    obtain ⟨id', _, hp'⟩ := pairByErc_some hpe
+    rcases hcase with ⟨_, rfl⟩ | ⟨_, L', _, rfl⟩
+    · exact inv_removePair _ hi _ _ hp'
+    · exact hi
   | convertDenom d u r n tgt =>
     simp only [stepU] at h
     split at h; · cases h
@@ -52,19 +42,11 @@ theorem inv_stepU (s s' : UState) (hi : IdxInv s.idx) (op : UOp) (hf : UOp.fresh
 theorem dead_stepU (s s' : UState) (op : UOp) (h : stepU s op = .ok s') : s'.dead = s.dead := by
   cases op with
   | convertCoin d u r n =>
-    simp only [stepU] at h
-    split at h; · cases h
-    split at h
-    · cases h; rfl
-    · simp only [UState.withLedger] at h
-      split at h <;> cases h; rfl
+    obtain ⟨_, _, _, hcase⟩ := stepU_convertCoin_ok s s' d u r n h
+    rcases hcase with ⟨_, rfl⟩ | ⟨_, L', _, rfl⟩ <;> rfl
   | convertERC20 ct u r n =>
-    simp only [stepU] at h
-    split at h; · cases h
-    split at h
-    · cases h; rfl
-    · simp only [UState.withLedger] at h
-      split at h <;> cases h; rfl
+    obtain ⟨_, _, _, hcase⟩ := stepU_convertERC20_ok s s' ct u r n h
+    rcases hcase with ⟨_, rfl⟩ | ⟨_, L', _, rfl⟩ <;> rfl
   | convertDenom d u r n tgt =>
     simp only [stepU] at h
     split at h; · cases h
@@ -141,21 +123,15 @@ theorem pair_persists (s s' : UState) (hi : IdxInv s.idx) (hdead : s.dead = []) 
     ∃ p', lookup id s'.idx.pairs = some p' ∧ p'.denom = p.denom ∧ p'.contract = p.contract ∧ p'.external = p.external := by
   cases op with
   | convertCoin d u r n =>
-    simp only [stepU, hdead] at h
-    split at h; · cases h
-    split at h
-    · rename_i hc; simp at hc
-    · simp only [UState.withLedger] at h
-      split at h <;> cases h
-      exact ⟨p, hp, rfl, rfl, rfl⟩
+    obtain ⟨_, _, _, hcase⟩ := stepU_convertCoin_ok s s' d u r n h
+    rcases hcase with ⟨hd, _⟩ | ⟨_, L', _, rfl⟩
+    · simp [hdead] at hd
+    · exact ⟨p, hp, rfl, rfl, rfl⟩
   | convertERC20 ct u r n =>
-    simp only [stepU, hdead] at h
-    split at h; · cases h
-    split at h
-    · rename_i hc; simp at hc
-    · simp only [UState.withLedger] at h
-      split at h <;> cases h
-      exact ⟨p, hp, rfl, rfl, rfl⟩
+    obtain ⟨_, _, _, hcase⟩ := stepU_convertERC20_ok s s' ct u r n h
+    rcases hcase with ⟨hd, _⟩ | ⟨_, L', _, rfl⟩
+    · simp [hdead] at hd
+    · exact ⟨p, hp, rfl, rfl, rfl⟩
   | convertDenom d u r n tgt =>
     simp only [stepU] at h
     split at h; · cases h
@@ -188,11 +164,37 @@ theorem inv_runU (s : UState) (hi : IdxInv s.idx) (ops : List UOp) (hf : FreshRu
     | ok s' => exact inv_stepU s s' hi op hf.1 h
 
 theorem bookM_runU (s : UState) (hi : IdxInv s.idx) (hdead : s.dead = []) (ops : List UOp) (hf : FreshRun s ops)
-    (id : PairId) (p : Pair) (hp : lookup id s.idx.pairs = some p) (hext : p.external = false) :
+    (id : PairId) (p : Pair) (hp : lookup id s.idx.pairs = some p) (hext : p.external = false)
+    (hnd : ∀ op ∈ ops, donationM [] p.denom p.contract op = 0) :
     (bookM p.denom p.contract (decide (p.denom = 0))).val (runU s ops).L =
       (bookM p.denom p.contract (decide (p.denom = 0))).val s.L := by
   induction ops generalizing s p with
   | nil => rfl
+  | cons op ops ih =>
+    simp only [runU, List.foldl_cons]
+    simp only [stepUT]
+    cases h : stepU s op with
+    | error e =>
+      have := ih s hi hdead (by simpa [FreshRun, stepUT, h] using hf.2) p hp hext (fun o ho => hnd o (by simp [ho]))
+      simpa [runU] using this
+    | ok s' =>
+      obtain ⟨p', hp', e1, e2, e3⟩ := pair_persists s s' hi hdead op h id p hp
+      have hstep := bookM_stepU s s' hi id p hp hext op h
+      rw [hdead, hnd op (by simp)] at hstep
+      have := ih s' (inv_stepU s s' hi op hf.1 h) ((dead_stepU s s' op h).trans hdead)
+        (by simpa [FreshRun, stepUT, h] using hf.2) p' hp' (e3.trans hext)
+        (fun o ho => by rw [e1, e2]; exact hnd o (by simp [ho]))
+      simp only [runU] at this
+      rw [e1, e2] at this
+      rw [this, hstep]; omega
+
+/-- donations only ever increase the book: along any run, escrow − supply of a module-owned pair never decreases -/
+theorem bookM_runU_mono (s : UState) (hi : IdxInv s.idx) (hdead : s.dead = []) (ops : List UOp) (hf : FreshRun s ops)
+    (id : PairId) (p : Pair) (hp : lookup id s.idx.pairs = some p) (hext : p.external = false) :
+    (bookM p.denom p.contract (decide (p.denom = 0))).val s.L ≤
+      (bookM p.denom p.contract (decide (p.denom = 0))).val (runU s ops).L := by
+  induction ops generalizing s p with
+  | nil => exact Int.le_refl _
   | cons op ops ih =>
     simp only [runU, List.foldl_cons]
     simp only [stepUT]
@@ -203,10 +205,13 @@ theorem bookM_runU (s : UState) (hi : IdxInv s.idx) (hdead : s.dead = []) (ops :
     | ok s' =>
       obtain ⟨p', hp', e1, e2, e3⟩ := pair_persists s s' hi hdead op h id p hp
       have hstep := bookM_stepU s s' hi id p hp hext op h
+      have hdon : 0 ≤ donationM s.dead p.denom p.contract op := by
+        cases op <;> simp only [donationM] <;> (try split) <;> omega
       have := ih s' (inv_stepU s s' hi op hf.1 h) ((dead_stepU s s' op h).trans hdead)
         (by simpa [FreshRun, stepUT, h] using hf.2) p' hp' (e3.trans hext)
       simp only [runU] at this
       rw [e1, e2] at this
-      rw [this, hstep]
+      show _ ≤ (bookM p.denom p.contract (decide (p.denom = 0))).val (List.foldl stepUT s' ops).L
+      omega
 
 end FxVerif.Proofs.C08
